@@ -400,6 +400,29 @@ HugeLaw ==
           /\ \A t \in Texts : /\ ~SpliceRef(a, i, Huge, t).ok /\ SpliceRef(a, i, Huge, t).def
                                /\ ~SpliceRef(a, i, 0 - Huge, t).ok /\ SpliceRef(a, i, 0 - Huge, t).def
     /\ \A t \in Texts \cup {b} : NCmpRef(a, t, Huge) = CmpRef(a, t)
+\* Gap compression (real sizes).  Objects of 2 GiB + k and 4 GiB + k bytes cannot be values of a TLC sequence.  The harness
+\* builds them as  head \o <G zero bytes> \o tail  (G = 2^31 or 2^32) and presents them to this specification with the gap
+\* compressed to a few zeros, translating positions and lengths: a position before the middle of the gap is itself, a position
+\* behind it (second half of the gap, the tail, the length) moves by the difference of the two gap lengths.  That this
+\* translation commutes with the rules - so that the expectation for the real object IS the expectation for the compressed
+\* one, whatever the gap length beyond the longest needle - is a law of the reference, checked here between two small gaps:
+Zeros(g) == [k \in 1 .. g |-> 0]
+Gapped(h, g, t) == h \o Zeros(g) \o t
+GapMove(p, h, g1, g2) == IF p < Len(h) + g1 \div 2 THEN p ELSE p + (g2 - g1)
+GapLaw ==
+    \A h \in Texts, t \in Texts :
+        LET x1 == Gapped(h, 4, t)  x2 == Gapped(h, 8, t)  mv(p) == GapMove(p, h, 4, 8) IN
+        /\ Len(x2) = mv(Len(x1))
+        /\ \A c \in Bytes : FirstPos(x2, c) = mv(FirstPos(x1, c)) /\ LastPos(x2, c) = mv(LastPos(x1, c))
+        /\ \A n \in Texts : FindRef(x2, n) = mv(FindRef(x1, n))
+        /\ RevSeq(x2) = Gapped(RevSeq(t), 8, RevSeq(h))
+        /\ \A m \in 0 .. Len(x1) :                      \* prefixes: the order by length survives the translation
+              /\ CmpRef(x2, Take(x2, mv(m))) = CmpRef(x1, Take(x1, m))
+              /\ CmpRef(Take(x2, mv(m)), x2) = CmpRef(Take(x1, m), x1)
+              /\ \A k \in 0 .. Len(x1) : NCmpRef(x2, Take(x2, mv(m)), mv(k)) = NCmpRef(x1, Take(x1, m), k)
+        /\ \A i \in 0 .. (Len(x1) - 1), c \in {1, 2, Huge} :   \* pieces that do not span the middle of the gap
+              LET r1 == SubRef(x1, i, c)  r2 == SubRef(x2, mv(i), c) IN
+              ((i >= Len(h) + 2) \/ (i + c <= Len(h) + 2)) => r2 = r1
 \* I: trim leaves no white space at either end and is idempotent; reverse is an involution; clear keeps the length
 ShapeLaw ==
     /\ LET t == TrimRef(a) IN
